@@ -82,3 +82,39 @@ Definition run_cases (cs : list (Z * list (ev * obs))) : list (Z * Z * Z * Z) :=
 Definition consts_rows (l : list Z) : list (Z * Z * Z * Z) :=
   if list_eqb Z.eqb l [bestScore; defaultScore; worstScore; minQueryTimeout; maxQueryTimeout]
   then [] else [(0, 3, 0, 0)].
+
+(* ---------------------------------------------------------------- worker *)
+Definition ores_eqb (a b : option (Z * jerr)) : bool :=
+  match a, b with
+  | Some (j1, e1), Some (j2, e2) => (j1 =? j2) && jerr_eqb e1 e2
+  | None, None => true
+  | _, _ => false
+  end.
+Definition wobs_eqb (a b : wobs) : bool :=
+  Bool.eqb (wacc a) (wacc b) && Bool.eqb (wsent a) (wsent b) && ores_eqb (wres a) (wres b).
+
+Fixpoint wfirst_mismatch (s : wstate) (i : Z) (tr : list (wev * wobs)) : option Z :=
+  match tr with
+  | [] => None
+  | (e, o) :: rest =>
+    let '(s', mo) := wstep s e in
+    if wobs_eqb mo o then wfirst_mismatch s' (i + 1) rest else Some i
+  end.
+
+Fixpoint wmon_first (m : wmon) (i : Z) (tr : list (wev * wobs)) : option Z :=
+  match tr with
+  | [] => None
+  | eo :: rest =>
+    match wmstep m eo with
+    | Some m' => wmon_first m' (i + 1) rest
+    | None => Some i
+    end
+  end.
+
+Definition wverdict_rows (c : Z * list (wev * wobs)) : list (Z * Z * Z * Z) :=
+  let '(id, tr) := c in
+  (match wfirst_mismatch WIdle 0 tr with Some i => [(id, 1, i, 0)] | None => [] end) ++
+  (match wmon_first wminit 0 tr with Some i => [(id, 2, i, 0)] | None => [] end).
+
+Definition run_wcases (cs : list (Z * list (wev * wobs))) : list (Z * Z * Z * Z) :=
+  flat_map wverdict_rows cs.
